@@ -269,6 +269,8 @@ def oracle(line, out):
             return "Huffman: lshpack and nghttp2 disagree (%s)" % op
         if op == "huffrt" and not out.endswith("rt=1"):
             return "Huffman: decode(encode(s)) != s"
+    elif op == "resp":
+        return oracle_resp(line, out)
     elif op in ("conn", "connv", "connx"):
         o = out.split(" ")
         if o[-1].startswith("x=") and o[-1] != "x=ok":
@@ -296,10 +298,107 @@ def oracle(line, out):
     return None
 
 
+# ---- response direction: independent statement of what the peer must decode
+RESP_NAMES = [b"Content-Type", b"Content-Length", b"ETag", b"Last-Modified", b"Cache-Control", b"Set-Cookie",
+              b"Location", b"Vary", b"Link", b"Content-Encoding", b"Accept-Ranges", b"Content-Range", b"Date",
+              b"Server", b"X-Frame-Options", b"Strict-Transport-Security", b"WWW-Authenticate", b"Allow",
+              b"Expires", b"Age", b"Alt-Svc", b"Content-Location", b"Content-Security-Policy", b"Pragma",
+              b"Referrer-Policy", b"Retry-After", b"X-Content-Type-Options", b"X-XSS-Protection", b"Upgrade",
+              b"Access-Control-Allow-Origin", b"Onion-Location", b"P3P", b"Priority", b"Expect-CT", b"Status",
+              b"X-Powered-By", b"X-Request-Id", b"X-Sendfile", b"X-LIGHTTPD-KBytes-per-second", b"X-Lighttpd-Foo",
+              b"Xa", b"x", b"Custom-Header", b"Via", b"Refresh", b"Content-Disposition", b"Content-Language"]
+
+
+def resp_expected(status, es, ops, srvtag):
+    """fields a conformant peer must see for one response (None = stream reset: too large)"""
+    order, ent, tag = [], {}, {}
+    for op, k, v in ops:
+        lk = k.lower()
+        if op == "s":
+            if lk not in ent:
+                order.append(lk)
+                ent[lk] = [k, []]
+            ent[lk][1] = [v]
+            tag[lk] = bool(v)
+            continue
+        if not v:
+            continue
+        if lk not in ent:
+            order.append(lk)
+            ent[lk] = [k, []]
+        vals = ent[lk][1]
+        blank = not b"".join(vals) and len(vals) <= 1
+        if blank:
+            ent[lk][1] = [v]
+        elif op == "a":
+            vals[-1] = vals[-1] + b", " + v
+        else:
+            vals.append(v)
+        tag[lk] = True
+    fields = [(b":status", b"%03d" % status)]
+    alen = 14
+    for lk in order:
+        k, vals = ent[lk]
+        if status == 304 and lk == b"content-encoding" and tag.get(lk):
+            continue
+        vlen = sum(len(v) for v in vals) + (len(vals) - 1) * (len(k) + 4)
+        if not k or not vlen:
+            continue
+        alen += len(k) + vlen + 4
+        if alen > 65535:
+            return None
+        if lk == b"x-sendfile" or lk.startswith(b"x-lighttpd-"):
+            alen -= len(k) + vlen + 4
+            continue
+        fields += [(lk, v) for v in vals]
+    if not tag.get(b"date"):
+        fields.append((b"date", b"AUTO"))
+    if srvtag and not tag.get(b"server"):
+        fields.append((b"server", b"ltv/1.0"))
+    return "ok:%d:%s" % (es, ",".join("%s:%s" % (C.hx(n), C.hx(v)) for n, v in fields))
+
+
+def parse_hdr_ops(txt):
+    if txt == "-":
+        return []
+    out = []
+    for t in txt.split(","):
+        k, v = t[1:].split(":")
+        out.append((t[0], C.unhx(k), C.unhx(v)))
+    return out
+
+
+def oracle_resp(line, out):
+    t = line.split(" ")
+    o = out.split(" ")
+    srvtag = t[1] == "1"
+    for i, it in enumerate(t[2:]):
+        if i >= len(o):
+            return "h2_send_headers: missing output"
+        if it[0] == "R":
+            st, es, ops = it[1:].split("/")
+            exp = resp_expected(int(st), int(es), parse_hdr_ops(ops), srvtag) or "rst"
+            if o[i] != exp:
+                if o[i].startswith("BADFRAMES"):
+                    return "h2_send_hpack: response header block badly framed (%s)" % o[i]
+                if o[i] == "NGFAIL":
+                    return "h2_send_headers: nghttp2 cannot decode the response header block"
+                return "h2_send_headers: the peer decodes a different status/field list than the response has"
+        elif it[0] == "F" and not (16384 <= int(it[1:]) <= 16777215):
+            return None if o[i:i + 2] == ["f", "goaway"] else "SETTINGS_MAX_FRAME_SIZE out of range not refused"
+    return None
+
+
 def classify(line, out):
     t = line.split(" ")
     op = t[0]
     o = out.split(" ")
+    if op == "resp":
+        kinds = sorted(set(x.split(":")[0] for x in o))
+        nrep = sum(1 for it in t[2:] if it.count(",i") + it.count("/i") > 1)
+        big = any(len(it) > 33000 for it in t[2:])
+        return "resp:%s:n%d:rep%d:big%d:c%d" % ("+".join(kinds), min(len(o), 4), min(nrep, 2), big,
+                                               any(it[0] == "C" for it in t[2:]))
     if op == "int":
         return "int:%s:%s:%d" % (t[1], o[0], min(len(t[2]) // 2, 7))
     if op == "encint":
@@ -530,6 +629,64 @@ def corrupt_lines(ctx, valid_lines):
     return L
 
 
+def rand_case(rng, name):
+    k = rng.random()
+    if k < 0.5:
+        return name
+    if k < 0.7:
+        return name.lower()
+    if k < 0.85:
+        return name.upper()
+    return bytes(c ^ 0x20 if (65 <= c <= 90 or 97 <= c <= 122) and rng.random() < 0.5 else c for c in name)
+
+
+def rand_resp_value(rng):
+    k = rng.random()
+    if k < 0.07:
+        return b""
+    if k < 0.75:
+        return bytes(rng.choice(b"abcdefghijklmnopqrstuvwxyzABCXYZ0123456789 /.,;=-_%\"()") for _ in range(rng.randint(1, 30)))
+    if k < 0.9:
+        return rng.choice([b"text/html; charset=utf-8", b"gzip", b"0", b"1234", b"no-cache", b"bytes",
+                           b"Mon, 21 Oct 2013 20:13:21 GMT", b"https://www.example.com/", b"max-age=3600",
+                           b"a=1; Path=/; HttpOnly", b"</s.css>; rel=preload", b"\"abc-123\"", b"Accept-Encoding"])
+    if k < 0.97:
+        return bytes(rng.choice(b"ABCDEFxyz0123456789+/=") for _ in range(rng.randint(200, 3000)))
+    return bytes(rng.choice(b"abcdefghij") for _ in range(rng.randint(9000, 30000)))
+
+
+def gen_resp(ctx):
+    rng = ctx.rng
+    L = []
+    for _ in range(2500 if ctx.quick else 30000):
+        items = []
+        pool = [(rand_case(rng, rng.choice(RESP_NAMES)), rand_resp_value(rng)) for _ in range(rng.choice([2, 5, 12]))]
+        for _ in range(rng.choice([1, 1, 2, 3, 6, 12, 25])):
+            r = rng.random()
+            if r < 0.06:
+                items.append("C%d" % rng.choice([0, 0, 64, 100, 1000, 4096, 4097, 65536, rng.randint(0, 5000)]))
+                continue
+            if r < 0.09:
+                items.append("F%d" % rng.choice([16384, 16385, 20000, 65536, 16777215, 16383 if rng.random() < 0.1 else 32768]))
+                continue
+            ops = []
+            for _ in range(rng.choice([0, 1, 2, 3, 4, 6, 9, 14])):
+                if rng.random() < 0.7:
+                    k, v = rng.choice(pool)
+                    if rng.random() < 0.3:
+                        k = rand_case(rng, k)
+                else:
+                    k, v = rand_case(rng, rng.choice(RESP_NAMES)), rand_resp_value(rng)
+                if k.lower() == b"x-lighttpd-kbytes-per-second":
+                    # (a negative number here is shifted left in http_response_omit_header(): UB, see report)
+                    v = rng.choice([b"100", b"0", b"", b"abc", b"7 "])
+                ops.append("%s%s:%s" % (rng.choice("sssssiiiaa"), C.hx(k), C.hx(v)))
+            st = rng.choice([200, 200, 200, 204, 206, 304, 304, 400, 404, 500, 301, 302, 403, 401, 416, 503, 100, 199, 599, 999])
+            items.append("R%d/%d/%s" % (st, rng.random() < 0.5, ",".join(ops) if ops else "-"))
+        L.append("resp %d %s" % (rng.random() < 0.6, " ".join(items)))
+    return L
+
+
 def run(ctx):
     exe, err = C.build_harness("h_hpack", libs=HARNESS_LIBS, extra=HARNESS_EXTRA)
     if exe is None:
@@ -543,6 +700,9 @@ def run(ctx):
     ctx.differential("conn-valid(3 encoders -> lshpack_dec)", [exe], "hpack", valid, oracle, classify)
     bad = corrupt_lines(ctx, valid)
     ctx.differential("conn-corrupt(single bit/byte)", [exe], "hpack", bad, oracle, classify)
+    resp = gen_resp(ctx)
+    ctx.differential("resp(h2_send_headers -> nghttp2)", [exe], "hpack", resp, oracle, classify)
+    ctx.dist["responses"] = sum(l.count(" R") for l in resp)
     ctx.dist["blocks_valid"] = sum(l.count(" B") + l.count(" D") for l in valid)
     ctx.dist["histories_valid"] = len(valid)
     ctx.dist["corrupted_blocks"] = len(bad)
